@@ -293,6 +293,20 @@ func runC15(c *Ctx) {
 		}
 		if cd.outer == "rt.ByteStreamProducer" {
 			ruleSourceAlwaysClosed(c, "R15.2", f, data)
+			// the payload is produced from where it stands: the producer performs no operation on it beyond the transfer
+			// itself (WriteTo / Read through io.Copy / MarshalBinary / Error) and the final Close — no Seek, Reset, Discard …
+			allowed := map[string]bool{"WriteTo": true, "Read": true, "Close": true, "MarshalBinary": true, "Error": true, "MarshalText": true, "String": true}
+			for _, fn := range withClosures(f) {
+				for _, ci := range allCalls(fn) {
+					cc := ci.Common()
+					if !cc.IsInvoke() || allowed[cc.Method.Name()] {
+						continue
+					}
+					if fromData, _ := allOrigins(cc.Value, oIsValue(data)); fromData {
+						c.obI("R15.2", ci, "payload-produced-as-it-stands", false, "the byte-stream producer only transfers the payload (and closes it): it never repositions or otherwise operates on it, so exactly the bytes the source still had to deliver are written", "calls "+cc.Method.Name()+" on the payload")
+					}
+				}
+			}
 		}
 		// R15.3
 		nValid += ruleReflectValidity(c, "R15.3", f)
